@@ -52,10 +52,12 @@ SCHEMA = {
     'AlignmentComparison': {'avgOverlappingAlignment1Coverage': REAL, 'avgOverlappingAlignment2Coverage': REAL, 'avgOverlappingIdentity': REAL,
                             'overlapping': INT, 'nonOverlapping': INT, 'firstOnly': INT, 'secondOnly': INT,
                             'rows': LIST(OBJ('AlignmentRowComparison'))},
+    'InitialAlignment': {},
+    'EmptyInitialAlignment': {},
     'SelectedPeak': {'primaryCorrelation': OBJ('InitialAlignment', 'EmptyInitialAlignment'), 'peak': PEAK},
     'CorrelationResult': {'peaks': LIST(PEAK), 'query': OMAP, 'reference': OMAP, 'reverseStrand': BOOL,
                           'resolution': INT, 'blur': INT, 'correlation': LIST(REAL), 'peakBaseLevel': OPT(REAL), 'correlationStart': REAL,
-                          'correlationEnd': REAL},
+                          'correlationEnd': OPT(REAL)},
     'AlignmentResultRow': {'queryId': INT, 'referenceId': INT, 'queryStartPosition': REAL, 'queryEndPosition': REAL,
                            'referenceStartPosition': REAL, 'referenceEndPosition': REAL, 'reverseStrand': BOOL,
                            'confidence': REAL, 'queryLength': REAL, 'referenceLength': REAL, 'segments': LIST(SEG),
